@@ -52,6 +52,12 @@ def via_entries(progs, rng, p=0.3):
     for pr in progs:
         if rng.random() < 0.125 and "short" not in pr["cfg"]:
             pr["cfg"] = dict(pr["cfg"], short=rng.randrange(1, 1 << 30))
+        if "optord" not in pr["cfg"]:
+            pr["cfg"] = dict(pr["cfg"], optord=rng.randrange(5))       # order of the FsOptions builder calls
+        # one volume in six is formatted over a medium full of old data (quick format of a used medium)
+        v = pr["cfg"].get("vol", {})
+        if v.get("kind") == "format" and "prefill" not in v and v.get("size", 1 << 40) <= (40 << 20) and rng.random() < 0.17:
+            pr["cfg"] = dict(pr["cfg"], vol=dict(v, prefill=rng.choice([0xD1, 0xFF, 0x01, 0xE5])))
         for o in pr["ops"]:
             if o.get("op") in ("open_file", "open_dir") and "/" not in o.get("path", "/") and rng.random() < p:
                 o["via"] = "entry"
@@ -491,7 +497,7 @@ def fam_ro(prop, kset, n_prog, n_ops, salt=0):
             elif i % 12 == 5 and kname[:2] in ("K3", "K4", "K5"):
                 # the clean-shutdown / no-error bits other implementations keep in table entry 1, cleared by someone else
                 poke = [{"fat1_and": rng.choice([0xF7FFFFFF, 0xFBFFFFFF, 0xF3FFFFFF] if kname.startswith("K5") else [0x7FFF, 0xBFFF, 0x3FFF])}]
-            progs.append(gen.ro_program(rng, "ro-%s-%d" % (kname, i), cfg, CS[kname], n_ops, end_setup=end_setup, poke=poke,
+            progs.append(gen.ro_program(rng, "ro-%s-%d" % (kname, i), dict(cfg, optord=i % 5), CS[kname], n_ops, end_setup=end_setup, poke=poke,
                                         end=rng.choice(["unmount", "dropfs"]), no_stats=(i % 12 >= 6)))
     return progs
 
@@ -782,7 +788,11 @@ def c10():
         vol, cs = gen.end_of_table_volume(rng, [12, 16, 32][i % 3])
         progs.append(gen.fill_program(rng, "c10-eot-%d" % i, {"vol": vol}, cs, rounds=1, chunk_clusters=(1, 2), use_dirs=(i % 2 == 0)))
     res = [("copies", core.campaign("copies", progs, wd, n_shards=14))]
-    res.append(("own", core.campaign("own", fam_fill("C10", ["K1b", "K2"], scale(4, 40)) + fam_ns("C10", ["K5", "K5b"], scale(6, 60), 40), wd)))
+    own = fam_fill("C10", ["K1b", "K2"], scale(4, 40)) + fam_ns("C10", ["K5", "K5b", "K3"], scale(6, 60), 40)
+    for i, p in enumerate(own):
+        if i % 2 and p["cfg"]["vol"].get("size", 1 << 40) <= (40 << 20):     # formatted over old data: every table copy must be initialised
+            p["cfg"] = dict(p["cfg"], vol=dict(p["cfg"]["vol"], prefill=[0xD1, 0xFF, 0x01, 0xE5][i // 2 % 4]))
+    res.append(("own", core.campaign("own", own, wd)))
     core.finish("C10", LEVEL, res, None, t0,
                 "histories on builder volumes with 1, 2 and 3 table copies, mirroring on and off with each active copy, FAT32 high nibbles set in used and "
                 "free entries, zero (free-looking) padding entries, filled to exhaustion; after every call TLC checks copies equal (mirroring) or inactive "
